@@ -59,7 +59,15 @@ Example C08_ex : Mass (combine [1; 3; 2] [1/2; 1/4; 1/4]) 2 = 1/2 + (1/4 + 0).
 Proof. unfold Mass. cbn [combine filter fst]. 
   repeat match goal with |- context [Rleb ?a ?b] => destruct (Rleb_spec a b); try lra end. reflexivity. Qed.
 
+(* hence the p-box CONTAINS EVERY SELECTION: for any choice of one point x_i inside each focal interval, the quantile at level a of the
+   distribution with atoms x_i and the given masses lies between the left and the right bound at that level *)
+Theorem C08_contains_every_selection (lo x hi w : list R) a vl vx vh :
+  length lo = length w -> length x = length w -> length hi = length w -> Forall (fun m => 0 <= m) w ->
+  Forall2 Rle lo x -> Forall2 Rle x hi ->
+  is_ginv (combine lo w) a vl -> is_ginv (combine x w) a vx -> is_ginv (combine hi w) a vh -> vl <= vx <= vh.
+Proof. intros L1 L2 L3 Hw H1 H2 G1 G2 G3. split; [exact (is_ginv_dom lo x w a vl vx L1 L2 Hw H1 G1 G2)|exact (is_ginv_dom x hi w a vx vh L2 L3 Hw H2 G2 G3)]. Qed.
 Print Assumptions C08_generalised_inverse.
+Print Assumptions C08_contains_every_selection.
 Print Assumptions C08_order_independent.
 Print Assumptions C08_split_invariant.
 Print Assumptions C08_roundtrip_level.
